@@ -453,7 +453,12 @@ def execute(plan):
 
         sD = seams.SimSampler(st.get("sampler:disturbed"), "faithful")
         oldD = seams.install_sampler(sD)
+        v0 = GS.VARIANT
         try:
+            if kind != "nested_run":
+                # the abandoned emulation runs under other gate definitions (same names and
+                # arguments, other matrices) than the clean one that follows
+                GS.VARIANT = (v0 + 1) % 4
             if kind == "interrupt":
                 k = 1 + int(frac * max(results["A"]["outcome"].get("steps", 1000), 50))
                 od = seams.outcome_of(lambda: run_jaqal_circuit(cA), clock, budget, inject_at=k)
@@ -471,9 +476,11 @@ def execute(plan):
                     other = circuits.get("B") or circuits.get("A-perm") or cA
                     sN = seams.SimSampler(st.get("sampler:nested"), "adversarial")
                     o_ = seams.install_sampler(sN)
+                    GS.VARIANT = (v0 + 2) % 4  # the inner emulation uses other definitions
                     try:
                         run_jaqal_circuit(other)
                     finally:
+                        GS.VARIANT = v0
                         seams.install_sampler(o_)
 
                 GS.CALLBACK = cb
@@ -481,6 +488,7 @@ def execute(plan):
                 GS.CALLBACK = None
         finally:
             GS.CALLBACK = None
+            GS.VARIANT = v0
             seams.install_sampler(oldD)
         fired = od["kind"] in ("interrupt", "exc:SimFault") or kind == "nested_run"
         if fired:
